@@ -50,7 +50,20 @@ func newUnitMode(sh *Shared, cs *ContractSet, fn *ssa.Function, asImpl bool) *Un
 			cp.Trusted = false
 			cp.Reason = ""
 			if own := u.contract; own != nil {
-				cp.Loops, cp.Callbacks, cp.Held, cp.HeldPost, cp.Logical = own.Loops, own.Callbacks, own.Held, own.HeldPost, own.Logical
+				cp.Loops, cp.Held, cp.HeldPost, cp.Logical = own.Loops, own.Held, own.HeldPost, own.Logical
+				// the interface's clauses about its callback parameters stay; the method's own annotations of the
+				// closures it creates ("callback $1 invariant") are added
+				merged := map[string]*CallbackSpec{}
+				for k, v := range ic.Callbacks {
+					merged[k] = v
+				}
+				for k, v := range own.Callbacks {
+					if _, clash := merged[k]; !clash {
+						merged[k] = v
+					}
+				}
+				cp.Callbacks = merged
+				cp.CallSites, cp.CallSitesPost = own.CallSites, own.CallSitesPost
 				u.rootKey = key + "@" + ic.Key
 			}
 			u.contract = &cp
